@@ -3,6 +3,7 @@ import StepModel.P21.LexNumber
 import StepModel.P21.LexGap
 import StepModel.P21.FloatShape
 import StepModel.P21.FloatRead
+import StepModel.P21.FloatSeventeen
 import StepModel.P21.AggrLemmas
 import StepModel.P21.RtsLemmas
 import StepModel.Generated.P21RWGen
@@ -1060,6 +1061,32 @@ theorem C09_writer_real_round_trips_arith (cfg : LexCfg) (lookup : Int → RefLo
     attrRead dblOpsRT cfg lookup .real nullable (IStream.ofBytes (attrWrite dblOpsRT .real (.real bits) ++ sp ++ d :: rest)) =
       .ok ⟨.null, .real bits, { left := sp.reverse ++ (attrWrite dblOpsRT .real (.real bits)).reverse, right := d :: rest }⟩ :=
   C09_writer_real_round_trips_model cfg lookup nullable bits hfin (dbl_fmtG_readsBack 17 (by decide) bits hlt hfin h17) hnn hbuf
+    sp rest d hsp hd
+
+/-- **`%.17G` converts back — proved.**  For every finite double of the float model, the text `Dbl.fmtG 17` prints is converted
+    back to the same bit pattern by the model's `strtod` (`parseFloatText` + `Dbl.ofDecimal`): 17 significant digits determine a
+    binary64.  `sigDigitsReadBack_17` (`P21/FloatSeventeen.lean`) is the arithmetic: `Dbl.sigDigits 17` yields a nearest
+    17-digit decimal of `m · 2^e` (`sigDigits_spec`), whose distance `≤ 10^(x−16)/2` is below half the spacing of the doubles
+    there because `10^16 > 2^53` (a quarter of it just below a power of two, where the spacing halves), and `Dbl.ofRatio` rounds
+    every rational that close to `m · 2^e` (`ofRatio_round`: binary exponent from `Nat.log2`, subnormal clamp, carry to the
+    next binade, encoding); the magnitude guards of `ofDecimal` do not fire (`2^1024 < 10^309`, `2^1074 ≤ 10^324`).  Together
+    with the text layer (`dbl_fmtG_readsBack`) no hypothesis is left. -/
+theorem C09_writer_seventeen_digits_convert_back (bits : Nat) (hlt : bits < 2 ^ 64)
+    (hfin : (bits / Dbl.pow2 52 % 2048 == 2047) = false) : Dbl.readsBack (Dbl.fmtG 17 bits) bits = true :=
+  dbl_fmtG_readsBack 17 (by decide) bits hlt hfin (fun hnz => sigDigitsReadBack_17 bits hlt hfin hnz)
+
+/-- **REAL / NUMBER writer, reads back to the same value — for every finite double, no numeric hypothesis** (repaired
+    `WriteReal`, fixes/C09-10): the token written for any 64-bit pattern that is finite and not the in-band null, followed by
+    any `Gap` and a delimiter, is read to exactly the double that was written, with no error.  (`hbuf`: the token fits
+    `ReadReal`'s buffer — at most 24 characters are written.) -/
+theorem C09_writer_real_round_trips (cfg : LexCfg) (lookup : Int → RefLookup) (nullable : Bool) (bits : Nat)
+    (hlt : bits < 2 ^ 64) (hfin : (bits / Dbl.pow2 52 % 2048 == 2047) = false)
+    (hnn : dblOpsRT.isRealNull bits = false)
+    (hbuf : cfg.realBuf = 0 ∨ (attrWrite dblOpsRT .real (.real bits)).length < cfg.realBuf)
+    (sp rest : List Byte) (d : Byte) (hsp : Gap cfg sp) (hd : d = 44 ∨ d = 41) :
+    attrRead dblOpsRT cfg lookup .real nullable (IStream.ofBytes (attrWrite dblOpsRT .real (.real bits) ++ sp ++ d :: rest)) =
+      .ok ⟨.null, .real bits, { left := sp.reverse ++ (attrWrite dblOpsRT .real (.real bits)).reverse, right := d :: rest }⟩ :=
+  C09_writer_real_round_trips_model cfg lookup nullable bits hfin (C09_writer_seventeen_digits_convert_back bits hlt hfin) hnn hbuf
     sp rest d hsp hd
 
 /-- … and for the 15-digit writer (`dblOps`, the unrepaired `WriteReal` and `asStr`): `hstable` of
